@@ -26,10 +26,35 @@ LIMIT = 1e-3          # massBalanceLimit
 _DEV = os.environ.get('C11_DEV_BIN')      # development only: directory with private owrun / driver
 
 
+def _run_filtered(binary, lines, env=None, timeout=900):
+    """vlib.run_lines, but only protocol lines count as results: storage_routing.go prints diagnostics
+    (inflow=..., outflow=..., newStorage=...) to stdout before its NaN panics, which would otherwise shift
+    the result stream.  A process crash is CRASH for the case it died on; the rest is re-run."""
+    import subprocess
+    results, i, n = [], 0, len(lines)
+    while i < n:
+        chunk = lines[i:]
+        p = subprocess.run([binary], input='\n'.join(chunk) + '\n', stdout=subprocess.PIPE, stderr=subprocess.PIPE,
+                           text=True, timeout=timeout, env=env)
+        got = [l for l in p.stdout.split('\n') if l.startswith(('OK ', 'PANIC', 'NOMODEL', 'NOCMD'))]
+        if len(got) >= len(chunk):
+            results.extend(got[:len(chunk)])
+            break
+        results.extend(got)
+        msg = ''
+        for l in p.stderr.strip().split('\n'):
+            if l.startswith('panic:') or l.startswith('fatal error:') or 'SIGSEGV' in l:
+                msg = l.strip()
+                break
+        results.append('CRASH ' + msg[:160])
+        i += len(got) + 1
+    return results
+
+
 def impl_run(lines):
     if _DEV:
-        return run_lines(os.path.join(_DEV, 'owrun'), lines, env=GOENV)
-    return run_impl(lines)
+        return _run_filtered(os.path.join(_DEV, 'owrun'), lines, env=GOENV)
+    return _run_filtered(os.path.join(HARNESS, 'bin', 'owrun'), lines, env=GOENV)
 
 
 def model_run(lines):
@@ -101,6 +126,8 @@ def musk_cases(rng, n):
         else:
             K = rng.choice([float(klo) * rng.uniform(0.05, 0.95), float(khi) * rng.uniform(1.05, 4.0), 0.0,
                             rng.uniform(0, 200000)])
+            if rng.random() < 0.15:
+                dt = 0.0            # with K = 0 the denominator is 0: NaN/Inf outputs on both sides
         T = rng.choice([0, 1, 2, 7, 40, 40, 120, 400])
         scale = rng.choice([0.01, 1.0, 10.0, 250.0, 1e4])
         S0 = rng.choice([0.0, rng.uniform(0, 1e6)])
@@ -279,6 +306,16 @@ def sr_cases(rng, n):
         lateral = gen_series(rng, T, rng.choice(['zero', 'zero'] + REGIMES), scale * rng.choice([0.1, 1.0]))
         rain = gen_series(rng, T, rng.choice(['zero', 'zero', 'wet', 'spells']), 5.0)
         evap = gen_series(rng, T, rng.choice(['zero', 'const', 'wet', 'wet']), rng.choice([3.0, 6.0, 50.0]))
+        if dom == 'outside' and rng.random() < 0.3 and T > 0:
+            # malformed stream (model vs code only): NaN / negative inputs, zero time step
+            w = rng.choice(['nan', 'neg', 'dt0'])
+            j = rng.randrange(T)
+            if w == 'nan':
+                rng.choice([inflow, lateral, evap])[j] = float('nan')
+            elif w == 'neg':
+                inflow[j] = -abs(inflow[j]) - 1.0
+            else:
+                dt = 0.0
         if rng.random() < 0.55:
             st = [0.0, 0.0, 0.0]
         else:
@@ -326,7 +363,7 @@ def sr_oracle(cs, res):
                                                     inflow=inf, lateral=lat, evap_flux=ev)))
         if q < 0 or s < 0:
             fails.append(('negative', t, dict(t=t, outflow=q, storage=s)))
-        if bias0 and q > 0 and m <= 1.0:
+        if bias0 and q * dt > rnd and m <= 1.0:     # positive outflow (above round-off of the volumes in play)
             # converged exits: |q_index - Q|*dt <= massBalanceLimit and S = k q_index^m + dead, hence (m <= 1)
             # |S - (k Q^m + dead)| <= k (massBalanceLimit/dt)^m ; maximum-flow exit without lateral: < massBalanceLimit
             tolS = (k * (LIMIT / dt) ** m + LIMIT) * (1 + 1e-6) + 1e-9 * (abs(s) + k * q ** m + dead) + 1e-9
@@ -372,7 +409,16 @@ def sr_agree(cs, ri, rm):
             x, y = ri[1][o][t], rm[1][o][t]
             if feq(x, y, 1e-9, 1e-9 * scale / div):
                 continue
-            slack = 4 * LIMIT * (t + 1)
+            # solver tolerances: massBalanceLimit (a volume) and convergenceLimit (1e-8 in the index flow, which
+            # moves the storage by 1e-8 * dS/dq); differences may accumulate from step to step
+            qv = max(abs(ri[1][0][t]), 1e-12)
+            try:
+                slope = cs['k'] * cs['m'] * qv ** (cs['m'] - 1.0)
+            except (OverflowError, ZeroDivisionError):
+                slope = float('inf')
+            if abs(cs['bias']) >= 0.001 and cs['m'] < 1.0 and cs['bias'] > 0:
+                slope = min(slope, dt / cs['bias'])
+            slack = (4 * LIMIT + 4e-8 * (dt + slope)) * (t + 1)
             if abs(x - y) <= slack / div + 1e-9 * abs(x):
                 worst = 'solver'
                 continue
@@ -393,8 +439,16 @@ def main():
         build_harness(['owrun'])
     rng = c.rng
     quick = c.tier == 'quick'
-    nM, nL, nS = (300, 300, 400) if quick else (6000, 6000, 8000)
     stats = {}
+    if not quick and not _DEV and not c.proof_broken:
+        # independent re-check of the compiled proofs of this property's closure
+        import subprocess
+        p = subprocess.run('timeout 2400 coqchk -silent -o -Q . OW OW.Properties.C11', shell=True, cwd=COQ,
+                           stdout=subprocess.PIPE, stderr=subprocess.STDOUT, text=True)
+        stats['coqchk'] = 'ok' if p.returncode == 0 else 'FAILED'
+        if p.returncode != 0:
+            c.proof_broken = ('coqchk OW.Properties.C11', p.stdout[-3000:])
+    nM, nL, nS = (1000, 1000, 1500) if quick else (20000, 20000, 30000)
 
     # ---- corpus: the witnesses of the defects fixed in /repo (kept as regression cases)
     mus = [dict(kind='steady', K=86400.0, X=0.2, dt=86400.0, states=[0.0, 14.0, 14.0], inflow=[10.0] * 40,
@@ -513,6 +567,10 @@ def main():
     stats['storagerouting_in_domain'] = n_dom
     stats['storagerouting_exit_path_steps'] = {str(k): v for k, v in sorted(pathcount.items())}
     stats['storagerouting_agree_only_within_solver_tolerance'] = n_solver_tol
+    if n_solver_tol > max(3, len(srs) // 200):
+        # a legitimate difference of iterate sequences (1-ulp pow differences at a tolerance threshold) is rare;
+        # a systematic one means the solver in the code is no longer the modelled one
+        c.corr_broken.append({'model': 'StorageRouting', 'diff': 'outputs agree only within the solver tolerance in %d of %d cases' % (n_solver_tol, len(srs))})
     stats['known_finding_failing_steps'] = known_steps
 
     c.cov['rule'] = (
@@ -523,12 +581,18 @@ def main():
         'Lag: series length T in {0..120}, lag 0..2T+2 (incl. lag>T, lag=T, fractional timeLag), non-zero carried buffers passed as the state vector, '
         'longer/shorter state vectors and negative lags compared with the model only; non-trivial = lag>0, non-zero buffer, T>0. '
         'StorageRouting: bias 0 / snapped-to-0 / within 2*k*bias<=dt / >=0.999 / outside, k log-uniform 50..2e6 and multiples of dt, tiny k stream, '
-        'm in [0.3,1] and m>1 outside, dead storage, area with rain/evap series, zero and non-zero initial states; '
+        'm in [0.3,1] and m>1 outside, dead storage, area with rain/evap series, zero and non-zero initial states, a malformed stream '
+        '(NaN / negative inputs, dt = 0: panics compared model-vs-code only); the oracle is applied to in-domain cases only, the relation '
+        'clause to steps whose outflow volume exceeds round-off; a failing step is attributed to a known finding only when its trigger '
+        'holds at that step (model exit path 2 with |bias|>=0.999 / path 4 with lateral>0 / path 7) AND the oracle fails at the same step '
+        'on the model\'s own outputs; '
         'non-trivial = in the stated domain and the model took at least two different exit paths in the run.')
     c.finish(extra_cov=dict(stats, exhaustive=False),
              assumptions=['theorems are over the reals (RArith); float round-off is only tested (oracle tolerances 1e-9 relative)',
                           'math.Pow (Go) vs ** (OCaml libm) compared to rtol 1e-9; StorageRouting cases that differ by more are accepted only within the solver tolerance and counted',
-                          'the exit-path ids come from the model (the Go code does not expose them)',
+                          'the exit-path ids come from the model (the Go code does not expose them); exit 3 is proved unreachable in the domain and was never taken',
+                          'finding sr-solver-unconverged (exit 7) is exhibited by the binary64 run of the model only; the closed Coq statements assume exit path <> 7',
+                          'StorageRouting cases agreeing only within the solver tolerance are accepted up to max(3, 0.5%) of the cases, beyond that the correspondence is reported broken',
                           'sim.Catalog wrapper (generated Run) is exercised, not modelled, in this check (see C04)'])
 
 
